@@ -7,6 +7,7 @@ import DdoModel.Engines.Ex
 import DdoModel.Engines.Viz
 import DdoModel.Engines.ExModel
 import DdoModel.Engines.DomCyc
+import DdoModel.Engines.CacheOrder
 /-! Line-protocol driver.  stdin: pairs of lines
       `C <engine> <id> <case tokens…>`
       `I <id> <implementation output tokens…>`
@@ -30,6 +31,7 @@ def dispatch (engine : String) (c i : List String) : Option Res :=
   | "viz" => vizEngine c i
   | "exmodel" => exmodelEngine c i
   | "domcyc" => domcycEngine c i
+  | "cacheorder" => cacheorderEngine c i
   | _ => none
 
 partial def loop (h : IO.FS.Stream) (out : IO.FS.Stream) : IO Unit := do
